@@ -275,6 +275,58 @@ func offCase(k cfg) harness.Case {
 	}}
 }
 
+// rekeyCase: the same instances run several key generations one after the other (Init + KeyGen again):
+// an honest one, then one per position with an off-polynomial key (which every honest instance must
+// refuse, as in a first run), then an honest one whose shares must reconstruct under its own key.
+func rekeyCase(k cfg) harness.Case {
+	return harness.Case{ID: "rekey/" + k.String(), Run: func(c *harness.C) {
+		c.Exec(fmt.Sprintf("[rekey] %v", k))
+		inst := cryptolib.Instances(k.be, k.n, 1)
+		parties := cryptolib.IDs(k.n)
+		rp := map[string]interface{}{"cfg": k.String(), "rekey": true}
+		_, errs := cryptolib.DKGOn(inst, parties, k.t, nil, 20*time.Second)
+		c.Add("executions", 1)
+		for id, e := range errs {
+			if e != nil {
+				c.Violation("on-polynomial-accepted", "c18-honest-dkg-fails:"+k.be, fmt.Sprintf("%v: first key generation: party %d: %v", k, id, e), rp)
+				return
+			}
+		}
+		if k.t < k.n {
+			for _, dev := range parties {
+				_, errs := cryptolib.DKGOn(inst, parties, k.t, offPolynomial(k.be, dev), 20*time.Second)
+				c.Add("executions", 1)
+				c.Add("evaluations", 1)
+				for id, e := range errs {
+					if id != dev && e == nil {
+						c.Violation("off-polynomial-detected", "c18-off-polynomial-key-accepted-when-re-keying:"+k.be, fmt.Sprintf("%v: a later key generation on the same objects: party %d accepted although the key of party %d is off the common polynomial", k, id, dev), rp)
+						return
+					}
+				}
+			}
+		}
+		shares, errs := cryptolib.DKGOn(inst, parties, k.t, nil, 20*time.Second)
+		c.Add("executions", 1)
+		for id, e := range errs {
+			if e != nil {
+				c.Violation("on-polynomial-accepted", "c18-honest-re-keying-fails:"+k.be, fmt.Sprintf("%v: honest key generation after earlier ones on the same objects: party %d: %v", k, id, e), rp)
+				return
+			}
+		}
+		var cl string
+		var err error
+		if k.be == "bls" {
+			cl, err = verifySubsetBLS(k, shares, c, c.Seed)
+		} else {
+			cl, err = verifySubsetPS(k, shares, c)
+		}
+		if err != nil {
+			c.Violation("any-t-shares-reconstruct", "c18-"+cl+"-after-re-keying:"+k.be, fmt.Sprintf("%v: shares of a later key generation on the same objects: %v", k, err), rp)
+		}
+		c.Outcome("rekey|" + k.String())
+	}}
+}
+
 func gen(c *harness.C) []harness.Case {
 	c.Note("rule", "public API only: for every (n,t) up to the bound a real DKG among n instances (synchronous wiring), every subset of size >= t aggregated by Verifier/Prover must verify under the reported key, every subset of size t-1 must not (BLS); for every position a consistently committed key off the polynomial must make every honest instance abort (t<n); 3 fresh polynomials per cell; distinct_nontrivial = distinct (cell, subset) and (cell, position)")
 	maxN, maxPS := 8, 4
@@ -283,6 +335,14 @@ func gen(c *harness.C) []harness.Case {
 	}
 	var cases []harness.Case
 	cases = append(cases, dealCases(c)...)
+	for _, nt := range [][2]int{{3, 2}, {4, 2}, {4, 3}, {3, 3}} {
+		if haveBLS {
+			cases = append(cases, rekeyCase(cfg{"bls", nt[0], nt[1]}))
+		}
+		if nt[0] <= 3 || c.Thorough() {
+			cases = append(cases, rekeyCase(cfg{"ps", nt[0], nt[1]}))
+		}
+	}
 	for n := 2; n <= maxN; n++ {
 		for t := 2; t <= n; t++ {
 			reps := 3
